@@ -292,6 +292,11 @@ def c08(tier):
                   'oracle: close-handshake monitor over the ordered wire/event/call log',
                   server=dict(kind='grammar', K=2 if q else 3, alphabet=['text', 'ping', 'close', 'close0']),
                   app=dict(actions=acts, max_actions=2)),
+        life_spec('close-orders-compressed', tags,
+                  'the same with permessage-deflate negotiated (compress=True offered and accepted; abstract zlib): compressed application sends '
+                  '(send_text / send_binary, default compress=True) obey the closing handshake like any other frame',
+                  server=dict(kind='grammar', K=2, alphabet=['text', 'close', 'close0']), compress=True,
+                  app=dict(actions=['send_text', 'close', 'send_binary'], max_actions=2)),
         life_spec('close-then-traffic', tags,
                   'application closes at a solver-chosen event, server keeps sending <=3 frames (Text/Ping/fragmented Binary/Close): '
                   'delivery continues until the server Close; one more application action',
